@@ -167,7 +167,7 @@ class Partial(object):
             if isinstance(v, (int, float)) and isinstance(self.notes.get(k), (int, float)):
                 self.notes[k] = max(self.notes[k], v)
             elif isinstance(v, list) and isinstance(self.notes.get(k), list):
-                self.notes[k] = (self.notes[k] + v)[:40]
+                self.notes[k] = (self.notes[k] + v)[:200]
             elif isinstance(v, dict) and isinstance(self.notes.get(k), dict):
                 self.notes[k].update(v)
             else:
@@ -212,20 +212,26 @@ def run_shard(module, ctx, out_path):
     if hasattr(module, "setup_shard"):
         module.setup_shard(ctx, P)
     units = all_units(module, ctx)
+    slow = []
     for n, (stream, idx) in enumerate(units):
         if n % ctx.shard_n != ctx.shard_i:
             continue
         if ctx.out_of_time():
             P.truncated += 1
             continue
+        t_unit = time.time()
         try:
             module.run_case(ctx, P, stream, idx)
         except KeyboardInterrupt:
             raise
         except BaseException as e:  # harness bug or unexpected state: never a verdict
             P.error("%s[%d]: %s: %s\n%s" % (stream, idx, type(e).__name__, e, traceback.format_exc()[-1500:]))
+        slow.append((time.time() - t_unit, stream, idx))
+        if len(slow) > 200:
+            slow = sorted(slow, reverse=True)[:3]
     if hasattr(module, "finish_shard"):
         module.finish_shard(ctx, P)
+    P.notes["slowest_units"] = [[round(s_, 2), st, ix] for s_, st, ix in sorted(slow, reverse=True)[:3]]
     with open(out_path, "w") as f:
         f.write(P.to_json())
 
@@ -358,6 +364,8 @@ def conclude(module, ctx, P, inconclusive, t0):
                                "witness": w}, indent=1))
             replay_paths.append((key, rp, dev))
 
+    if isinstance(P.notes.get("slowest_units"), list):
+        P.notes["slowest_units"] = sorted(P.notes["slowest_units"], reverse=True)[:5]
     coverage = {
         "evaluations": P.evaluations,
         "distinct_nontrivial": n_distinct,
